@@ -234,8 +234,7 @@ def text_matches(tm, value, default_match_type="contains"):
 
 # "rfc" = the RFC's semantics.  "k1" = the semantics of known finding K1 (used only by its
 # signature): text-match on CATEGORIES compares whole categories for equality, and text-match on
-# values that the iCalendar library does not type as TEXT (X- properties, cal-addresses, parameter
-# values) compares the whole value for equality.
+# values of unknown type (X- properties) compares the whole value for equality.
 SEMANTICS = ["rfc"]
 VTEXT_TYPED = {"SUMMARY", "DESCRIPTION", "LOCATION", "COMMENT", "CONTACT", "STATUS", "CLASS", "UID", "TZID", "TZNAME", "ACTION", "RELATED-TO", "RESOURCES", "TRANSP", "PRODID", "VERSION", "CALSCALE", "METHOD"}
 
@@ -286,8 +285,6 @@ def param_filter_matches(pf, prop):
     tm = pf.get("text_match")
     if tm is None:
         return True
-    if SEMANTICS[0] == "k1":
-        return _or(text_matches(dict(tm, match_type="equals"), v) for v in vals)
     return _or(text_matches(tm, v) for v in vals)
 
 
@@ -306,7 +303,7 @@ def prop_instance_matches(pf, prop, tz):
             cats = [icalref.unescape_text(c) for c in icalref.split_unescaped(prop.value, ",")]
             r = _or(text_matches(dict(tm, negate=False, match_type="equals"), c) for c in cats)
             checks.append((not r) if (tm.get("negate") and r is not None) else r)
-        elif SEMANTICS[0] == "k1" and prop.name not in VTEXT_TYPED:
+        elif SEMANTICS[0] == "k1" and prop.name.startswith("X-"):
             checks.append(text_matches(dict(tm, match_type="equals"), prop_text(prop)))
         elif prop.name == "CATEGORIES":
             cats = [icalref.unescape_text(c) for c in icalref.split_unescaped(prop.value, ",")]
